@@ -5,6 +5,7 @@ import Proofs.Lemmas.CertsLooks
 import Proofs.Lemmas.CertsLookStruct
 import Proofs.Lemmas.CertsPhase
 import Proofs.Lemmas.CertsOrd
+import Proofs.Lemmas.CertsMkOrd
 import Proofs.Lemmas.CertsOpt2
 import Proofs.Lemmas.CertsParse2
 import Proofs.Lemmas.CertsUse
@@ -28,13 +29,15 @@ program the pipeline emits, by induction over the layout of the emitted code:
 
 ## The data-flow certificates
 
-`C06.wfProgFull` fixes the phase certificate to `mkCert prog` and the capture-order certificate to
-`mkOrd prog` (the result of a bounded fixpoint iteration).  The interpreter proofs need only SOME
-certificate that passes the checker, so the consumers are restated for `ProgCert prog` (both
-certificates existentially quantified; `Proofs/Lemmas/CertsUse.lean`), and `ProgCert prog` is what is
-proved for every compiled program (`compiled_progCert`).  `ProgOK prog = true` literally
-(`compiled_progOK_partial`) additionally needs that the iteration `mkOrd` has converged, which is kept
-as a hypothesis.
+`C06.wfProgFull` fixes the phase certificate to `mkCert prog` (one left-to-right pass) and the
+capture-order certificate to `mkOrd prog` (a bounded round-robin fixpoint iteration).  Both are shown to
+pass for every emitted program: `CertsPhase.Root.mkCert_eq` (the pass computes the explicit certificate
+read off the skeleton) and `CertsMkOrd.Root.checkOrd_mk` (on structured code the iteration is stationary
+after three sweeps: only loop back edges go backwards, and what they change is overwritten by the
+`ResetCaptureGroup`s that follow the loop head; a stationary certificate dominating the explicit coarse
+certificate of `CertsOrd` passes the checker).  Hence `ProgOK prog = true` literally
+(`compiled_progOK`).  Independently, `Proofs/Lemmas/CertsUse.lean` restates the interpreter theorems for
+`ProgCert prog` (both data-flow certificates existentially quantified), which is all they need.
 
 ## Hypotheses kept
 
@@ -111,28 +114,31 @@ theorem emitted_checkCert {r : Regex} {prog : Prog} (E : Emitted r prog) :
   obtain ⟨sk, R, _, _⟩ := E.root
   exact R.checkCert_mk
 
-/-- **`emitted_checkOrd`**: a capture-order certificate exists. -/
-theorem emitted_checkOrd {r : Regex} {prog : Prog} (E : Emitted r prog) : ∃ c, checkOrd prog c = true := by
+/-- **`emitted_checkOrd`**: the capture-order certificate computed by `mkOrd` passes (the fixpoint
+iteration converges — after at most three sweeps). -/
+theorem emitted_checkOrd {r : Regex} {prog : Prog} (E : Emitted r prog) :
+    checkOrd prog (mkOrd prog) = true := by
   obtain ⟨sk, R, hnd, hrex⟩ := E.root
-  exact R.checkOrd_ex hnd hrex
+  exact R.checkOrd_mk hnd hrex
 
 /-- **All certificates.** -/
 theorem emitted_progCert {r : Regex} {prog : Prog} (E : Emitted r prog) : ProgCert prog :=
   { wf := emitted_wfProg E
     cert := ⟨_, emitted_checkCert E⟩
     confined := emitted_lookConfined E
-    ord := emitted_checkOrd E
+    ord := ⟨_, emitted_checkOrd E⟩
     lookLoop := emitted_lookLoopProg E
     loops := emitted_loopsStructured E
     looks := emitted_looksStructured E }
 
-/-- `ProgOK` (with the computed certificates) for an emitted program whose `mkOrd` iteration has
-converged to a passing certificate. -/
-theorem emitted_progOK_partial {r : Regex} {prog : Prog} (E : Emitted r prog)
-    (hord : checkOrd prog (mkOrd prog) = true) :
+/-- **`C06.wfProgFull`** of every emitted program. -/
+theorem emitted_wfProgFull {r : Regex} {prog : Prog} (E : Emitted r prog) : C06.wfProgFull prog = true := by
+  simp [C06.wfProgFull, emitted_wfProg E, emitted_checkCert E, emitted_lookConfined E, emitted_checkOrd E]
+
+/-- **`ProgOK`/`ProgPkOK`** (the hypotheses of `Proofs/EndToEnd.lean`) of every emitted program. -/
+theorem emitted_progOK {r : Regex} {prog : Prog} (E : Emitted r prog) :
     EndToEnd.ProgOK prog = true ∧ EndToEnd.ProgPkOK prog = true := by
-  have hfull : C06.wfProgFull prog = true := by
-    simp [C06.wfProgFull, emitted_wfProg E, emitted_checkCert E, emitted_lookConfined E, hord]
+  have hfull := emitted_wfProgFull E
   simp [EndToEnd.ProgOK, EndToEnd.ProgPkOK, hfull, emitted_lookLoopProg E, emitted_loopsStructured E,
     emitted_looksStructured E]
 
@@ -180,13 +186,13 @@ theorem compiled_progCert (hb : ∀ c ∈ pat, c ≤ 0x10FFFF) (hp : parse pat f
   obtain ⟨re', E⟩ := compiled_emitted hb hp hc
   exact emitted_progCert E
 
-/-- **`compiled_progOK`** (kept: the `mkOrd` iteration has converged). -/
-theorem compiled_progOK_partial (hb : ∀ c ∈ pat, c ≤ 0x10FFFF) (hp : parse pat fl = .ok re)
-    (hc : compile ofuel pat fl = .ok prog)
-    (hord : checkOrd prog (mkOrd prog) = true) :
+/-- **`compiled_progOK`**: for every pattern/flags with `compile … = .ok prog`, the decidable
+hypotheses `ProgOK prog` / `ProgPkOK prog` of `Proofs/EndToEnd.lean` hold. -/
+theorem compiled_progOK (hb : ∀ c ∈ pat, c ≤ 0x10FFFF) (hp : parse pat fl = .ok re)
+    (hc : compile ofuel pat fl = .ok prog) :
     EndToEnd.ProgOK prog = true ∧ EndToEnd.ProgPkOK prog = true := by
   obtain ⟨re', E⟩ := compiled_emitted hb hp hc
-  exact emitted_progOK_partial E hord
+  exact emitted_progOK E
 
 /-! ## 3. The end-to-end theorems without hypotheses on the program -/
 
@@ -306,6 +312,47 @@ theorem compiled_safe (hb : ∀ c ∈ pat, c ≤ 0x10FFFF) (hp : parse pat fl = 
       (C06.freshState_clean prog 0) fuel fuel) (fun _ _ h => ⟨h.1, h.2.1, h.2.2.2⟩) (fun _ h => h.2)
   · exact C06.pk_safe_ascii_full P.wf hco P.confined hk hpos pos fuel
 
+
+/-! ## 3b. The search theorems of `EndToEnd` (prefilter, iterator)
+
+The remaining theorems of `Proofs/EndToEnd.lean`, with `ProgOK prog` discharged by `compiled_progOK`. -/
+
+section Search
+open Regress.Api Regress.Closure Regress.C09
+variable {inp : Input} {cs : List Nat}
+
+/-- `EndToEnd.prefilter_sound_emitted_partial` (kept: `maxOK`). -/
+theorem prefilter_sound_emitted (hb : ∀ c ∈ pat, c ≤ 0x10FFFF) (hp : parse pat fl = .ok re)
+    (hc : compile ofuel pat fl = .ok prog) (hmax : maxOK re.node = true)
+    (ht : IR.Utf8Text inp cs) (hu : prog.flags.unicode = inp.unicode) (fuel : Nat) :
+    StartPredSound prog.startPred inp (searchEnvBt prog inp fuel) :=
+  EndToEnd.prefilter_sound_emitted_partial hb hp hc hmax (compiled_progOK hb hp hc).1 ht hu fuel
+
+/-- `EndToEnd.prefilter_transparent_emitted_partial` (C04 end to end; kept: `maxOK`). -/
+theorem prefilter_transparent_emitted (hb : ∀ c ∈ pat, c ≤ 0x10FFFF) (hp : parse pat fl = .ok re)
+    (hc : compile ofuel pat fl = .ok prog) (hmax : maxOK re.node = true)
+    (ht : IR.Utf8Text inp cs) (hu : prog.flags.unicode = inp.unicode) (fuel : Nat) {start : Nat}
+    (hs : Safety.VUtf8 inp start ∨ inp.len < start) :
+    collectK (searchEnvBt prog inp fuel) .btPrefix start = unfoldIter (searchEnvBt prog inp fuel) start ∧
+    ∀ p, Safety.VUtf8 inp p → nextMatchPrefix (searchEnvBt prog inp fuel) p =
+      nextMatchPrefix { searchEnvBt prog inp fuel with findBytes := some } p :=
+  EndToEnd.prefilter_transparent_emitted_partial hb hp hc hmax (compiled_progOK hb hp hc).1 ht hu
+    fuel hs
+
+/-- `EndToEnd.findIter_spec_partial` (kept: `maxOK`; `Sim.simpleProg prog` and not start-anchored, as in `EndToEnd`). -/
+theorem findIter_spec (hb : ∀ c ∈ pat, c ≤ 0x10FFFF) (hp : parse pat fl = .ok re)
+    (hc : compile ofuel pat fl = .ok prog) (hmax : maxOK re.node = true)
+    (hsimple : Sim.simpleProg prog = true) (hna : isAnchored prog = false)
+    (ht : IR.Utf8Text inp cs) (hu : prog.flags.unicode = inp.unicode) (fuel : Nat)
+    (hfuel : Pk.lookBound prog inp.len ≤ fuel) {start : Nat}
+    (hs : Safety.VUtf8 inp start ∨ inp.len < start) {ms : List MatchR}
+    (h : findIter .bt prog inp start fuel = .ok ms) :
+    ms = unfoldIter (specEnv inp re.node prog) start :=
+  EndToEnd.findIter_spec_partial hb hp hc hmax (compiled_progOK hb hp hc).1 hsimple hna ht hu fuel
+    hfuel hs h
+
+end Search
+
 end Compiled
 
 /-! ## 4. Non-vacuity: a real compiled pattern
@@ -356,10 +403,9 @@ theorem cxBoundary : AtBoundary [0x61, 0x61, 0x78, 0x79, 0x63] 0 := ⟨0, by dec
 
 /-- All certificates of the compiled program, from the general theorem … -/
 example : ProgCert cxProg := compiled_progCert cxBnd cxParse cxCompile
-/-- … and, evaluated: here the `mkOrd` iteration converges, so `ProgOK` holds literally. -/
+/-- … and `ProgOK`, from the general theorem and, independently, evaluated. -/
+example : ProgOK cxProg = true ∧ ProgPkOK cxProg = true := compiled_progOK cxBnd cxParse cxCompile
 example : ProgOK cxProg = true := by decide +kernel
-example : ProgOK cxProg = true ∧ ProgPkOK cxProg = true :=
-  compiled_progOK_partial cxBnd cxParse cxCompile (by decide +kernel)
 
 example (fuel : Nat) (hfuel : Pk.lookBound cxProg cxInp.len ≤ fuel) :
     PkAgrees (Pk.attempt cxProg cxInp fuel 0) (firstMatch cxInp cxRe.node 0) :=
@@ -393,7 +439,11 @@ end Regress.Certs
 #print axioms Regress.Certs.emitted_checkOrd
 #print axioms Regress.Certs.emitted_progCert
 #print axioms Regress.Certs.compiled_progCert
-#print axioms Regress.Certs.compiled_progOK_partial
+#print axioms Regress.Certs.emitted_wfProgFull
+#print axioms Regress.Certs.compiled_progOK
+#print axioms Regress.Certs.prefilter_sound_emitted
+#print axioms Regress.Certs.prefilter_transparent_emitted
+#print axioms Regress.Certs.findIter_spec
 #print axioms Regress.Certs.compile_correct_pk_total
 #print axioms Regress.Certs.compile_correct_bt
 #print axioms Regress.Certs.compiled_safe
